@@ -336,7 +336,8 @@ impl C13 {
         let pool = self.pool.as_mut().unwrap();
         let gen_pool: u64 = if ctx.tier == Tier::Quick { 24 } else { 256 };
         let doc = match rng.below(10) {
-            0..=4 => pool.generated(&Family::Rich, rng.below(gen_pool)),
+            0..=3 => pool.generated(&Family::Rich, rng.below(gen_pool)),
+            4 => pool.generated(&Family::RichEncrypted, rng.below(8)),
             5 => {
                 match rng.below(3) {
                     0 => pool.generated(&Family::TwoLeaf, rng.below(4)),
